@@ -171,10 +171,18 @@ def check_text(ctx, text, origin, mode):
         report = MAIN_REPORT
         contextualize_report(text)
         call = lambda: verify()
+    # the environment's choice of formatter: the feedback for a rejected text (message, quoted line, marker) is rendered through it
+    fmt = case.get('formatter')
+    if fmt is None:
+        import zlib
+        fmt = case['formatter'] = FORMATTERS[zlib.crc32(text.encode('utf-8', 'replace')) % len(FORMATTERS)]
+    if fmt != 'default':
+        report.set_formatter(make_formatter(fmt, report))
     try:
         ret = call()
+        ctx.seen('formatters_in_force', type(report.format).__name__)
     except BaseException as ex:
-        feat = ''
+        feat = '' if type(report.format).__name__ == 'Formatter' else '|formatter=%s' % type(report.format).__name__
         if kind == 'reject':
             feat = '|cpython-lineno-%s' % ('None' if getattr(ref, 'lineno', 0) is None else 'int')
             if '\x00' in text:
@@ -261,6 +269,25 @@ def check_text(ctx, text, origin, mode):
         ctx.sample({'text': text[:300], 'origin': origin, 'mode': mode, 'cpython': kind if kind == 'accept' else repr(ref)[:120],
                     'pedal_feedback': [f.label for f in report.feedback],
                     'line': getattr(syn_cat[0].location, 'line', None) if syn_cat else None})
+
+
+FORMATTERS = ['default'] * 6 + ['html', 'text', 'gradescope', 'vpl', 'terminal']
+
+
+def make_formatter(name, report):
+    from pedal.core import formatting
+    if name == 'html':
+        return formatting.HtmlFormatter(report)
+    if name == 'text':
+        return formatting.TextFormatter(report)
+    if name == 'gradescope':
+        from pedal.environments.gradescope import GradeScopeFormatter
+        return GradeScopeFormatter(report)
+    if name == 'vpl':
+        from pedal.environments.vpl import VPLFormatter
+        return VPLFormatter(report)
+    from pedal.environments.terminal import TerminalFormatter
+    return TerminalFormatter(report)
 
 
 MODES = ['verify', 'verify', 'set_source', 'private', 'section', 'set_source-other-filename', 'verify-given-code-and-filename',
